@@ -68,6 +68,41 @@ CHECKS = {
   text="All histories up to length 4 (5 in thorough) over 3 tags x 2 texts and random histories up to 30 steps: Count, First, tag order and Get(tag) after every step equal a reference list of entries; Equals on all ordered pairs of lists without repeated tags (length <= 3) iff same set of pairs.",
   note="Only the observables the statement names are compared (entries behind the first one with the same tag are not observable through Get).",
   ref="DESIGN.md section 4, C19"),
+ "C02": dict(
+  technique="independent JSON tokenizer (encoding/json token stream) + reflection accounting walk over value and output by jsonld tags; bounded-exhaustive benign cells and hostile position x constant grid + rapid random hostile values",
+  text="Every MarshalJSON method and package MarshalJSON are run on all benign single-cell values, every-field-set values, 36 string positions x 42 hostile constants (quotes, backslashes, control characters, invalid UTF-8, injection payloads) and random values; the output must be one valid JSON value without repeated member names, every set property under its declared term with the prescribed JSON kind (RFC 3339, xsd:duration by an independent parser), every string decoding to exactly the bytes held, and no undeclared or unaccounted member.",
+  note="encoding/json is the trusted tokenizer (it does not reject invalid UTF-8: checked separately); for non-UTF-8 byte strings only validity/no-duplicate/no-undeclared-member are asserted.",
+  ref="DESIGN.md section 4, C02"),
+ "C04": dict(
+  technique="exhaustive tiny inputs + hostile document grid + prefix truncation of seeds + child-process nesting cells + rapid structure-aware mutation at 110 decode entry points; panic/watchdog/allocation monitors with a follow-up battery; native go fuzzing in the thorough tier",
+  text="All decode entry points (found by reflection and checked against a go/parser census) receive the empty and every 1-byte input, ~100 malformed documents, every prefix of seed documents and gob streams, nesting up to 200 000 levels in a child process, and structure-aware random mutations; none may panic, exceed a 10 s watchdog or a coarse allocation bound, and every value returned is inspected, compared, re-encoded in both codecs and formatted. Thorough adds a coverage-guided campaign.",
+  note="Only panics, hangs and allocation blow-ups are violations here (wrong values belong to C01/C03/C05); asymptotic cost is not decided; native fuzzing cannot be seeded - the saved input is the reproducible unit.",
+  ref="DESIGN.md section 4, C04"),
+ "C05": dict(
+  technique="differential testing against an independent document writer (encoding/json scalars + jsonld tags): bounded-exhaustive single-member documents in two renderings + rapid random documents with neutral rendering choices + repository mocks and their structure-preserving mutations; fixpoint oracle",
+  text="The model of a document is the value it must decode to; an independent writer renders it (member order, v vs [v], plain string vs language map, zone offsets are random neutral choices); Diff(model, decode(doc)) under the JSON normal form must be empty, then decode/encode/decode/encode must be a fixpoint with stable bytes. Mocks: every declared member is accounted for in the decoded value; v<->[v] mutations decode identically.",
+  note="The writer shares no code with the library's encoder, so paired encoder/decoder mistakes are visible here.",
+  ref="DESIGN.md section 4, C05"),
+ "C06": dict(
+  technique="bounded-exhaustive constants x properties x forms x codecs + rapid random texts; byte-exact round-trip oracle on the text and on the set of (tag, text) pairs",
+  text="~95 troublesome valid UTF-8 texts and random strings (1..200 bytes, escape-biased alphabet) are stored in name/summary/content/preferredUsername/source.content, as single untagged/tagged values and as 2..4 language maps, and taken through 5 encode/decode entry pairs (2 JSON, 3 gob/binary); the bytes must come back identical and map tags must be preserved.",
+  note="Texts are non-empty valid UTF-8 as the statement says; in JSON a lone tagged value may return untagged (documented normal form).",
+  ref="DESIGN.md section 4, C06"),
+ "C08": dict(
+  technique="exhaustive helper x source type x pointer/value matrix in a child process built with -d=checkptr; structural (reflect offset/size) containment oracle, read-faithfulness and write-through oracles on fully populated values; go/parser census of unsafe conversion sites for domain completeness",
+  text="Every To*/On* helper (and generic To[T]) is applied to every source struct type in pointer and value form on populated values with a distinct value in every field: a returned view must lie inside the source (offsets, sizes), read every shared field equal (items<->orderedItems), write through to a pointer source; the runtime pointer checker aborts are attributed to their cell; refusal by error is always accepted. All 44 unsafe.Pointer conversion sites found by the census are exercised.",
+  note="The static part of the statement (all conversion sites) is covered dynamically: a site the matrix cannot reach would be listed UNCOVERED, not judged.",
+  ref="DESIGN.md section 4, C08"),
+ "C12": dict(
+  technique="rapid property test with bit-exact deep snapshots (incl. slice spare capacity) for read-only operations + concurrent battery under the Go race detector in child processes (halt_on_error), results compared with sequential ones",
+  text="15 groups of read-only operations run on random values whose lists carry sentinel-filled spare capacity: the snapshot must be bit-identical after each operation and results stable; then 8 goroutines run the battery on a shared cold value while 4 decode unrelated inputs in a -race build: any DATA RACE report, diverging result or state change is a violation.",
+  note="Schedules are not enumerated: the race detector reports unsynchronised conflicting accesses on the executions it observes; gob results are compared by what they decode to (Go randomises map order in gob output).",
+  ref="DESIGN.md section 4, C12"),
+ "C20": dict(
+  technique="exhaustive nil kind x helper x position matrix, each cell in a child process so that a fatal nil dereference is attributed; validity-predicate oracle (neutral result or error, callbacks receive nil)",
+  text="The untyped nil and nil pointers to all 14 struct types are passed to every exported helper taking an Item (60+ helpers) at top level, as a list member and as a property of a valid activity: IsNil true, NotEmpty false, equal to nil, unequal to a real object, no panic or hang, and a callback - if invoked - receives a nil pointer.",
+  note="The helper table is hand-written from the exported API (it is the enumeration of the finite domain).",
+  ref="DESIGN.md section 4, C20"),
 }
 props = [json.loads(l) for l in open(os.path.join(V, "properties.jsonl"))]
 checks, na = [], []
